@@ -19,11 +19,12 @@ Kernel behaviours modelled (see DESIGN.md section 3; checked against real socket
 import errno
 import selectors
 import socket as _socket
+import weakref
 
 
 class World:
     def __init__(self):
-        self.fds = {}           # open descriptor table: fd -> SimSocket
+        self.fds = weakref.WeakValueDictionary()   # open descriptor table: fd -> SimSocket (weak: the table does not keep objects alive)
         self.log = []           # recorded events (dicts)
         self.seq = 0
         self.now = 1000.0       # virtual clock (seconds)
@@ -41,6 +42,8 @@ class World:
             fd += 1
         self.fds[fd] = sock
         self.ever += 1
+        if sock.name[:1].islower():         # proxy-side endpoints (peer application endpoints are named in upper case)
+            self.ev(ev='open', fd=fd, s=sock.name)
         return fd
 
     def ev(self, **kw):
@@ -56,10 +59,24 @@ class World:
     def pair(self, a, b, cap=None, cap_b=None):
         """Two connected endpoints named a (proxy side) and b (peer application side)."""
         x, y = SimSocket(self, a), SimSocket(self, b)
-        x.peer, y.peer = y, x
+        x.peer = y
+        y.link_weakly(x)
         x.cap = cap if cap is not None else self.cap
         y.cap = cap_b if cap_b is not None else (cap if cap is not None else self.cap)
         return x, y
+
+
+class _Gone:
+    """What the peer application's endpoint sees once the proxy-side socket object has been finalised."""
+    closed = True
+    wr_shut = True
+    got_rst = False
+    cap = 0
+    rx = bytearray()
+    name = 'gone'
+
+
+_GONE = _Gone()
 
 
 class SimSocket:
@@ -72,7 +89,7 @@ class SimSocket:
         self.world = world
         self.name = name
         self.fd = world.alloc(self)
-        self.peer = None
+        self._peer = None
         self.rx = bytearray()
         self.cap = world.cap
         self.closed = False
@@ -87,6 +104,24 @@ class SimSocket:
         self.maxseg = None          # if set: send() accepts at most this many bytes per call
         self.connector = None       # set for sockets created unconnected (see connect())
         self.addr = None
+
+    # The application-side endpoint must not keep the proxy-side socket OBJECT alive (a kernel does not): its link is weak,
+    # so that a proxy-side socket nobody references any more is finalised as CPython finalises a real socket.
+    @property
+    def peer(self):
+        p = self._peer
+        if isinstance(p, weakref.ref):
+            p = p()
+            if p is None:
+                return _GONE
+        return p
+
+    @peer.setter
+    def peer(self, v):
+        self._peer = v
+
+    def link_weakly(self, other):
+        self._peer = weakref.ref(other)
 
     # -- identity ---------------------------------------------------------------------------
     def fileno(self):
@@ -228,7 +263,8 @@ class SimSocket:
         self.closed = True
         if self.world.fds.get(self.fd) is self:
             del self.world.fds[self.fd]
-        self._t(ev='close')
+        if self.traced or self.name[:1].islower():
+            self.world.ev(s=self.name, fd=self.fd, ev='close', connected=self.peer is not None)
 
     def detach(self):
         self.closed = True
@@ -241,7 +277,8 @@ class SimSocket:
                 self.closed = True
                 if self.world.fds.get(self.fd) is self:
                     del self.world.fds[self.fd]
-                self._t(ev='close', gc=True)
+                if self.traced or self.name[:1].islower():
+                    self.world.ev(s=self.name, fd=self.fd, ev='close', gc=True, connected=self.peer is not None)
         except Exception:
             pass
 
@@ -291,7 +328,7 @@ class SimSelector:
 
     def _in_kernel_set(self, fd):
         """The kernel drops a descriptor from the epoll set when it is closed; a reused number is a new file."""
-        return fd in self._gen and self.world.fds.get(fd) is self._gen[fd]
+        return fd in self._gen and self.world.fds.get(fd) is not None and self.world.fds.get(fd) is self._gen[fd]()
 
     def register(self, fileobj, events, data=None):
         if (not events) or (events & ~(selectors.EVENT_READ | selectors.EVENT_WRITE)):
@@ -305,7 +342,7 @@ class SimSelector:
             raise OSError(errno.EBADF, 'Bad file descriptor')
         key = selectors.SelectorKey(fileobj, fd, events, data)
         self.map[fd] = key
-        self._gen[fd] = self.world.fds[fd]
+        self._gen[fd] = weakref.ref(self.world.fds[fd])
         self.world.ev(ev='sel', op='register', fd=fd, mask=events, data=data if isinstance(data, int) else None, res='ok')
         return key
 
